@@ -48,28 +48,32 @@ def analyse_loops(repo: Repo, run: Run, interp, mod, fn, cls, reader: T, eof_rai
         if not inside_reads and not parse_calls and not pkg_calls:
             continue
         n += 1
-        ways = []
-        # E1 / E2 exits
+        from .. import streams
+        ways = list(streams.exits_on_empty_read(rec, lr, reader))
+        # E2 exits: comparison of the raw read result with a non-empty constant
         for kind, pc, seq, lineno in lr.exits:
             if kind not in ("break", "return", "raise"):
                 continue
             for c, pol in pc:
                 atom, apol = render.norm_bool(c)
                 eff = pol if apol else not pol
-                for rc in inside_reads:
-                    rt = T("call", (rc.func, rc.args, rc.kwargs))
-                    if atom == rt and eff is False:
-                        ways.append(f"E1: `{kind}` when the read result is empty (line {lineno})")
-                        if kind == "raise":
-                            raises_at_eof = True
-                    if atom.op == "cmp" and atom.a[0] == "==" and rt in (atom.a[1], atom.a[2]):
-                        other = atom.a[2] if atom.a[1] == rt else atom.a[1]
-                        if other.op == "const" and isinstance(other.a[0], bytes):
-                            if other.a[0] == b"" and eff is True:
-                                ways.append(f"E1: `{kind}` when the read result == b'' (line {lineno})")
-                            if other.a[0] != b"" and eff is False:
-                                ways.append(f"E2: `{kind}` unless the read result equals the {len(other.a[0])}-byte constant "
-                                            f"(line {lineno}); b'' differs")
+                if atom.op == "cmp" and atom.a[0] == "==":
+                    for x, y in ((atom.a[1], atom.a[2]), (atom.a[2], atom.a[1])):
+                        if streams.is_any_read(x, reader) is not None and y.op == "const" and isinstance(y.a[0], bytes) \
+                                and y.a[0] != b"" and eff is False:
+                            ways.append(f"E2: `{kind}` unless the read result equals the {len(y.a[0])}-byte constant "
+                                        f"(line {lineno}); b'' differs")
+        if lr.kind == "while" and lr.test is not None:
+            # `while flag:` with flag = (read(n) == <non-empty constant>) computed inside the loop
+            tst = render.norm_bool(sym.resolve_widens(rec, lr.test))[0]
+            if tst.op == "widen":
+                for contrib in tst.a[2]:
+                    atom, apol = render.norm_bool(contrib)
+                    if atom.op == "cmp" and atom.a[0] == "==" and apol:
+                        for x, y in ((atom.a[1], atom.a[2]), (atom.a[2], atom.a[1])):
+                            if streams.is_any_read(x, reader) is not None and y.op == "const" and isinstance(y.a[0], bytes) and y.a[0]:
+                                ways.append(f"E2: the loop continues only while the read result equals the {len(y.a[0])}-byte "
+                                            f"constant (line {lr.lineno}); b'' differs")
         # E3 strict decoders fed with the raw read
         for rc in inside_reads:
             rt = T("call", (rc.func, rc.args, rc.kwargs))
@@ -79,7 +83,8 @@ def analyse_loops(repo: Repo, run: Run, interp, mod, fn, cls, reader: T, eof_rai
                 strict = (c.func.op == "func" and c.func.a[0].endswith("kevent.from_kd_buf")) or \
                          (c.func.op == "global" and c.func.a[0] in ("struct.unpack",)) or \
                          (c.func.op == "attr" and c.func.a[1] in ("parse", "unpack"))
-                if strict and rt in c.args and not [x for x, _ in c.pc if x not in [y for y, _ in rc.pc]]:
+                if strict and any(streams.raw_valued(a_, rt) for a_ in c.args) \
+                        and not [x for x in c.pc if x not in rc.pc and x not in streams.loop_test_conditions(rec, c.loops)]:
                     ways.append(f"E3: raw read result goes into the strict-size decoder {sym.pretty(c.func)[:40]} (line {c.lineno})")
                     raises_at_eof = True
         for c in parse_calls:
@@ -144,19 +149,41 @@ def check(repo: Repo, run: Run) -> None:
 
     # ------------------------------------------------------------------ R2
     n_calls = 0
+    seen_sites = set()
+    from .. import streams as _st
+    units = [(None, f) for f in mod.functions.values()] + [(kb, m) for m in kb.methods.values()]
+    for cls_, fn in units:
+        rec = interp.run(mod, fn, self_cls=cls_)
+        for c in rec.calls:
+            if c.func.op == "func" and c.func.a[0].endswith("kevent.from_kd_buf") and (c.lineno, c.col) not in seen_sites:
+                seen_sites.add((c.lineno, c.col))
+                n_calls += 1
+                arg = c.args[0] if len(c.args) == 1 else None
+                rd = None
+                if arg is not None:
+                    for x in sym.walk(arg):
+                        if x.op == "param":
+                            r_ = _st.is_any_read(arg, x)
+                            if r_ is not None:
+                                rd = r_
+                if arg is not None:
+                    arg = sym.resolve_widens(rec, arg)
+                    rd = None
+                    for x in sym.walk(arg):
+                        if x.op == "param":
+                            r_ = _st.is_any_read(arg, x)
+                            if r_ is not None:
+                                rd = r_
+                ok = rd is not None and rd.a[1] == (const(ks),)
+                run.ob("R2", mod.name, c.where.replace(mod.name + ".", ""), f"from_kd_buf argument at line {c.lineno}", ok,
+                       "" if ok else f"from_kd_buf is given {sym.pretty(arg)[:80] if arg is not None else 'nothing'} instead of the "
+                                     f"raw result of read({ks}): a partial record is padded/altered into an event",
+                       facts={"argument": sym.pretty(arg)[:100] if arg is not None else None}, line=c.lineno)
     for name in ("parse_v2", "parse_v3"):
         fn = repo.method("kd_buf_parser", "KdBufParser", name)
         rec = interp.run(mod, fn, self_cls=kb)
         reader = param(fn.args.args[1].arg)
         raw = T("call", (T("attr", (reader, "read")), (const(ks),), ()))
-        for c in rec.calls:
-            if c.func.op == "func" and c.func.a[0].endswith("kevent.from_kd_buf") and c.where.endswith(name):
-                n_calls += 1
-                ok = c.args == (raw,)
-                run.ob("R2", mod.name, f"KdBufParser.{name}", f"from_kd_buf argument at line {c.lineno}", ok,
-                       "" if ok else f"from_kd_buf is given {sym.pretty(c.args[0])[:80] if c.args else 'nothing'} instead of the "
-                                     f"raw result of read({ks}): a partial record is padded/altered into an event",
-                       facts={"argument": sym.pretty(c.args[0])[:100] if c.args else None}, line=c.lineno)
         if not rec.is_generator:
             run.ob("R3", mod.name, f"KdBufParser.{name}", "generator function", False,
                    f"{name} is no longer a generator function: events are produced only after the whole dump was read",
@@ -206,10 +233,20 @@ def check(repo: Repo, run: Run) -> None:
     fn = repo.function("__main__", "print_with_count")
     rec = interp.run(main, fn)
     gen, cnt = param(fn.args.args[0].arg), param(fn.args.args[1].arg)
-    loops = [lr for lr in rec.loops.values() if lr.kind == "for" and lr.iter == gen]
+    ENUM = T("builtin", ("enumerate",))
+
+    def over_gen(it):
+        """the loop iterates the generator itself or enumerate(generator[, start]): returns how to get the element"""
+        if it == gen:
+            return lambda tgt: tgt
+        if it is not None and it.op == "call" and it.a[0] == ENUM and it.a[1] and it.a[1][0] == gen:
+            return lambda tgt: T("sub", (tgt, const(1)))
+        return None
+    loops = [lr for lr in rec.loops.values() if lr.kind == "for" and over_gen(lr.iter) is not None]
     prints = [c for c in rec.calls if c.func == T("builtin", ("print",))]
-    ok = len(loops) == 1 and len(prints) == 1 and prints[0].args == (loops[0].target,) and loops[0].id in prints[0].loops
-    brk = [e for lr in loops for e in lr.exits if e[0] == "break"]
+    ok = len(loops) == 1 and len(prints) == 1 and prints[0].args == (over_gen(loops[0].iter)(loops[0].target),) \
+        and loops[0].id in prints[0].loops
+    brk = [e for lr in loops for e in lr.exits if e[0] in ("break", "return")]
     stops = bool(brk) and all(any(sym.contains(c, cnt) for c, _ in e[1]) for e in brk) and (not brk or brk[0][2] < prints[0].seq)
     mats = [c for c in rec.calls if c.func.op == "builtin" and c.func.a[0] in pipeline.MATERIALISERS and gen in c.args]
     run.ob("R3", main.name, "print_with_count", "prints each element as it arrives", ok and not mats,
